@@ -48,7 +48,30 @@ def _c15(name, features):
     }
 
 
+_FA = ["date_length", "time_length", "width", "grouping", "list_type", "list_style"]
+KANI_FORMATTER = {
+    "name": "c18_kani_formatter",
+    "package": "leptos_i18n_parser",
+    "module": "utils::formatter::verif_kani",
+    "harness_files": ["kani/formatter.rs"],
+    "flags": [],
+    "quick": ["%s_%d::check" % (a, n) for n in (0, 1, 2) for a in _FA] + ["name_dispatch_1"],
+    "thorough": ["%s_%d::check" % (a, n) for n in (0, 1, 2, 3) for a in _FA] + ["name_dispatch_1"],
+    "timeout": 900,
+    "procs": 10,
+    "bounded": "argument lists of exactly 0..=2 (quick) / 0..=3 (thorough) pairs over a closed universe of 3 names x "
+               "(documented values + junk + empty); unwind 20 with unwinding assertions",
+    "source_hint": "leptos_i18n_parser/src/utils/formatter.rs",
+}
+
 PROPS = {
+    "C18": {
+        "level": "model_checking",
+        "verus": [],
+        "kani": [KANI_FORMATTER],
+        "explanation": "bounded model checking (Kani/CBMC) of the real from_args / from_name_and_args code; "
+                       "a stand-in, not a proof: list length is bounded",
+    },
     "C15": {
         "level": "proof",
         "verus": [],
